@@ -13,6 +13,9 @@ RULE = ("cases = (schema, datum, disable_tuple_notation) x strict x raise_errors
         "independent Python predicate of the documented mapping; corr:validate-many groups the data of one schema; "
         "corr:validate-vs-writer: accepted => schemaless_writer and writer(validator=True) encode and the value reads back normalised; "
         "rejected => Writer.write / writer(validator=True) raise and the stream holds exactly the bytes before the rejected record; "
+        "corr:strict-writer = schemaless_writer with strict=True / strict_allow_default=True vs the model under the same options on every "
+        "case, and: a datum validate(strict=True) accepts whose records (as selected by the statement's union rule under strict conformance) "
+        "carry exactly the schema's fields (resp. lack only defaulted fields) must be written and read back, also by writer(validator=True); "
         "non-trivial = datum has a node beyond depth 0; distinct by (schema, datum, flags)")
 TRUSTED = ["the schema reaches the model as the parsed dict fastavro.parse_schema returned (naming is C11's business)",
            "harness/unions.py: the mutator and the Python rendering of the documented mapping (conforms_x)"]
@@ -250,6 +253,57 @@ def check_writer(ctx, c, m, parts, stats, good):
                       problems[0].split(":")[0].replace(" ", "-")[:60], found_input=True, detail="mutation=" + kind)
 
 
+def check_strict_writer(ctx, c, m, parts, stats):
+    """corr:strict-writer: schemaless_writer(strict=True) / (strict_allow_default=True) vs the model's elaboration under the same
+    options (the branch search runs the validator with the writer's options), and the statement: what validate(strict=True)
+    accepts and the strict writer's field discipline admits must be encoded and read back"""
+    import fastavro
+    tn = not c.wopts.get("disable_tuple_notation")
+    dt = not tn
+    s = c.schema_arg()
+    mp = (m or "").split("|")
+    for k, (opt, allow_default) in enumerate((("strict", False), ("strict_allow_default", True))):
+        mw = mp[3 + k] if len(mp) > 3 + k else ""
+        key = (repr(c.raw), repr(c.datum), dt, opt)
+        ctx.count("corr:strict-writer", key, nontrivial=CC.has_depth(c.datum))
+        w = CC.impl_write(s, c.datum, disable_tuple_notation=dt, **{opt: True})
+        claim = U.strict_claim(c.datum, c.parsed, c.named, tn, allow_default)
+        if claim:
+            stats["strict_claims"] += 1
+            vt = parts[1][0] if not allow_default else parts[0][0]
+            ok, why = True, ""
+            if vt != "T":
+                ok, why = False, f"validate(strict={not allow_default}) = {vt} on a datum that conforms strictly"
+            elif w[0] != "ok":
+                if w[1] not in ("OverflowError", "error"):
+                    ok, why = False, f"schemaless_writer({opt}=True) raised {w[1]} on a datum validate accepts"
+            else:
+                r = CC.impl_read(s, w[1])
+                if r[0] != "ok" or r[2] != len(w[1]) or not CC.norm_equiv(c.datum, r[1], c.parsed, c.named, tn):
+                    ok, why = False, "written but not read back as the normalised datum"
+            if ok and w[0] == "ok" and stats["strict_claims"] % 4 == 0:
+                try:
+                    fo = io.BytesIO()
+                    fastavro.writer(fo, s, [c.datum], validator=True, disable_tuple_notation=dt, **{opt: True})
+                    out = list(fastavro.reader(io.BytesIO(fo.getvalue())))
+                    if not (len(out) == 1 and CC.norm_equiv(c.datum, out[0], c.parsed, c.named, tn)):
+                        ok, why = False, f"writer(validator=True, {opt}=True): read back " + repr(out)[:200]
+                except Exception as e:
+                    ok, why = False, f"writer(validator=True, {opt}=True) raised {type(e).__name__}"
+            if not ok:
+                ctx.violation("corr:strict-writer", dict(c.to_json(), writer_option=opt), impl=why, model=mw[:300],
+                              signature="C10:strict-writer:%s:accepted-by-validate-not-written" % opt, found_input=True,
+                              detail=why + "; mutation=" + getattr_kind(c))
+                continue
+        if mw == "U" or not mw:
+            continue
+        it = ("W:" + w[1].hex()) if w[0] == "ok" else "E"
+        if mw.split(";")[0] != it:
+            ctx.violation("corr:strict-writer", dict(c.to_json(), writer_option=opt), impl=it[:600], model=mw[:600],
+                          signature="C10:model-differs:strict-writer:" + opt, found_input=False,
+                          detail="the statement's strict claim does not apply to this datum or holds; only the model differs")
+
+
 def many_expected(singles, raise_errors):
     """what validate_many must answer given the single answers (in order)"""
     if raise_errors:
@@ -304,6 +358,9 @@ WITNESS_SCHEMAS = [
     # regression (9496e1e + bf75db4): a '-type' entry naming no record branch while a map branch fits -- rejected by both now
     ([{"type": "record", "name": "A2", "fields": [{"name": "x", "type": "int"}]}, {"type": "map", "values": ["int", "string"]}],
      {"x": 1, "-type": "B"}, "wrong-hint"),
+    # strict writers: the branch search itself is strict -- A lacks its nullable default-less field, B fits exactly
+    ([{"type": "record", "name": "SA", "fields": [{"name": "a", "type": "int"}, {"name": "b", "type": ["null", "string"]}]},
+      {"type": "record", "name": "SB", "fields": [{"name": "a", "type": "int"}]}], {"a": 1}, "conforming"),
     # O1 (observation): omitted bytes field whose default is a JSON string
     ({"type": "record", "name": "RO1", "fields": [{"name": "a", "type": "bytes", "default": "abc"}]}, {}, "missing-defaulted-field"),
 ]
@@ -350,7 +407,7 @@ def run(ctx):
     origs = [None] * len(wit) + origs
     ctx.notes["mutation_kinds"] = kinds
     model = core.coq_eval([expr(c) for c in cases], U.IMPORTS, ctx.workdir, tag="c10", shard=120)
-    stats = dict(expected_true=0, expected_false=0, accepted=0, rejected=0, float_range_excluded=0)
+    stats = dict(expected_true=0, expected_false=0, accepted=0, rejected=0, float_range_excluded=0, strict_claims=0)
     results = []
     still_valid = 0
     for c, m, orig in zip(cases, model, origs):
@@ -362,6 +419,7 @@ def run(ctx):
         if orig is not None and (orig is not c.datum) and U.conforms_x(orig, c.parsed, c.named, not c.wopts.get("disable_tuple_notation")):
             good = orig
         check_writer(ctx, c, m, parts, stats, good)
+        check_strict_writer(ctx, c, m, parts, stats)
     # fixed validate_many witness: a datum rejected because its '-type' entry excludes every union branch (the ValidationError
     # raised by the union carries no error entries)
     import fastavro
@@ -387,6 +445,7 @@ def run(ctx):
     ctx.notes["predicate_true/false_evaluations"] = [stats["expected_true"], stats["expected_false"]]
     ctx.notes["accepted/rejected_writer_cases"] = [stats["accepted"], stats["rejected"]]
     ctx.notes["float_range_excluded"] = stats["float_range_excluded"]
+    ctx.notes["strict_writer_claims_evaluated"] = stats["strict_claims"]
     ctx.notes["mutated_but_still_accepted"] = still_valid
     ctx.notes["model_error_share"] = round(sum(1 for m in model if m and m.startswith("E/")) / max(1, len(model)), 4)
     # O1 observation
@@ -422,5 +481,6 @@ def replay(ctx, rep):
         nv = len(ctx.violations)
         good = eval(case["good"], dict(CC.EVAL_ENV))
         check_writer(ctx, c, m, parts, stats, good)
+        check_strict_writer(ctx, c, m, parts, stats)
         ok = len(ctx.violations) == nv
     return ok
